@@ -88,6 +88,36 @@ fn write_archive<W: Write>(dest: W, layers: u8, level: u32, constant: bool, tota
     let oneblock = shape == "oneblock";
     let (c, _) = config(layers, level);
     let mut w = ArchiveWriter::from_config(dest, c).map_err(|e| e.to_string())?;
+    if shape == "manyparts" {
+        // a file started, another one added and closed, then the first one fed in very many small parts:
+        // one contiguous run, whatever the number of parts
+        let a = w.start_file("file0").map_err(|e| e.to_string())?;
+        w.add_file("file1", 1000, Gen { left: 1000, rng: Rng::new(2), constant }).map_err(|e| e.to_string())?;
+        let part = 512u64;
+        let mut left = total;
+        let mut i = 0u64;
+        while left > 0 {
+            let n = part.min(left);
+            w.append_file_content(a, n, Gen { left: n, rng: Rng::new(i), constant }).map_err(|e| e.to_string())?;
+            left -= n;
+            i += 1;
+        }
+        w.end_file(a).map_err(|e| e.to_string())?;
+        w.finalize().map_err(|e| e.to_string())?;
+        return Ok(w.into_raw());
+    }
+    if shape == "shortsource" {
+        // the source ends long before the announced size: the call is refused; the writer goes on
+        let a = w.start_file("file0").map_err(|e| e.to_string())?;
+        let given = total / 16;
+        if w.append_file_content(a, total, Gen { left: given, rng: Rng::new(1), constant }).is_ok() {
+            return Err("a source shorter than announced was accepted".into());
+        }
+        let _ = w.end_file(a);
+        let _ = w.add_file("file1", 1000, Gen { left: 1000, rng: Rng::new(2), constant });
+        let _ = w.finalize();
+        return Ok(w.into_raw());
+    }
     if shape == "twoopen" {
         // two files open at once; the first receives everything in ONE append while the second is open
         let a = w.start_file("file0").map_err(|e| e.to_string())?;
@@ -231,6 +261,10 @@ pub fn cases(ctx: &Ctx) -> Vec<Case> {
                             v.push(Case { op: op.into(), layers, level, data: data.into(), sizes_mib: s.clone(), shape: shape.into(), subset: true, src_read: 0 });
                         }
                     }
+                    if op == "write" && level == levels[0] {
+                        v.push(Case { op: op.into(), layers, level, data: data.into(), sizes_mib: s.clone(), shape: "manyparts".into(), subset: false, src_read: 0 });
+                        v.push(Case { op: op.into(), layers, level, data: data.into(), sizes_mib: s.clone(), shape: "shortsource".into(), subset: false, src_read: 0 });
+                    }
                     // writer only: one huge append while another file is open; sources that return short reads
                     if op == "write" && level == levels[0] {
                         v.push(Case { op: op.into(), layers, level, data: data.into(), sizes_mib: s.clone(), shape: "twoopen".into(), subset: false, src_read: 0 });
@@ -320,7 +354,9 @@ pub fn run_case(ctx: &mut Ctx, c: &Case) {
         let (m2, v2) = &results[results.len() - 1];
         let p1 = v1["peak_growth"].as_u64().unwrap_or(0);
         let p2 = v2["peak_growth"].as_u64().unwrap_or(0);
-        if p2 > p1 + (2 << 20) {
+        // without compression the writer holds next to nothing: a tighter tolerance there
+        let tol: u64 = if c.op == "write" && c.layers & 2 == 0 { 256 << 10 } else { 2 << 20 };
+        if p2 > p1 + tol {
             ctx.violation("C15", &format!("grows-with-data:{}:layers{}", c.op, c.layers), scen(), json!({"sizes_mib": [m1, m2], "peak_live_growth": [p1, p2]}));
         }
     }
